@@ -203,13 +203,28 @@ def case_volume(case):
     for perm in itertools.permutations(range(nvec)):
         for flip in itertools.product([1, -1], repeat=nvec):
             variants.append(base[list(perm)] * np.array(flip)[:, None])
-    gram = base @ base.T
-    expect = float(np.sqrt(max(np.linalg.det(gram), 0.0)))
+    # reference: sqrt(det(Gram)) with the Gram matrix and its determinant in exact rational arithmetic (the entries are floats, hence
+    # rationals): a floating-point det(B B^T) squares the conditioning of a flat cell and would be LESS accurate than the code under
+    # test.  Tolerance: backward-error bound of a determinant / cross product of the rows, c * eps * prod(|row|), plus 1e-9 relative.
+    from fractions import Fraction
+    import math
+
+    fb = [[Fraction(float(x)) for x in row] for row in base]
+    g = [[sum(a * b for a, b in zip(r1, r2)) for r2 in fb] for r1 in fb]
+    if nvec == 1:
+        det = g[0][0]
+    elif nvec == 2:
+        det = g[0][0] * g[1][1] - g[0][1] * g[1][0]
+    else:
+        det = (g[0][0] * (g[1][1] * g[2][2] - g[1][2] * g[2][1]) - g[0][1] * (g[1][0] * g[2][2] - g[1][2] * g[2][0])
+               + g[0][2] * (g[1][0] * g[2][1] - g[1][1] * g[2][0]))
+    expect = math.sqrt(float(max(det, 0)))
+    abs_tol = 64 * np.finfo(float).eps * float(np.prod(np.linalg.norm(base, axis=1)))
     for cell in variants:
         got = volume(cell)
         neval += 1
         hand = "n/a" if nvec < 3 else ("right" if np.linalg.det(cell) > 0 else "left")
-        if not np.isfinite(got) or abs(got - expect) > 1e-9 * max(expect, 1e-300) + 1e-12 * scale**nvec:
+        if not np.isfinite(got) or abs(got - expect) > 1e-9 * max(expect, 1e-300) + abs_tol:
             key = "volume-negative" if (abs(got + expect) <= 1e-9 * expect) else "volume-value"
             viols.append(_v(key, f"volume of {nvec} vectors ({hand}-handed) = {got!r}, expected sqrt(det(Gram)) = {expect!r}",
                             cell=cell.tolist()))
